@@ -36,19 +36,27 @@ def main():
             if f.startswith(a.pid + '-'):
                 os.unlink(os.path.join(rdir, f))
     parts = []
-    engines = os.environ.get('VERIF_ENGINES', 'tree,seg,kani').split(',')      # debugging aid; registered commands use both
+    engines = os.environ.get('VERIF_ENGINES', 'tree,seg,kani').split(',')      # debugging aid; registered commands use all
     if 'tree' not in engines:
         TREE_PROPS.clear()
     if 'kani' not in engines:
         check_kani.PLAN.clear()
+    # the Kani harnesses (few, mostly single-threaded CBMC runs) go on concurrently with the MIR-executor parts
+    import threading
+    kres = {}
+    kth = None
+    if a.pid in check_kani.PLAN:
+        common.scratch(); common.repo_copy()
+        kth = threading.Thread(target=lambda: kres.update(r=check_kani.run(a.pid, a.tier, seed)))
+        kth.start()
     if a.pid in TREE_PROPS:
         parts.append(('tree', check_trees.run(a.pid, a.tier, seed, a.procs)))
     if a.pid in SEG_PROPS and 'seg' in engines:
         parts.append(('seg', check_seg.run(a.pid, a.tier, seed, a.procs)))
-    if a.pid in check_kani.PLAN:
-        k = check_kani.run(a.pid, a.tier, seed)
-        if k is not None:
-            parts.append(('kani', k))
+    if kth is not None:
+        kth.join()
+        if kres.get('r') is not None:
+            parts.append(('kani', kres['r']))
     if not parts:
         print(f'no check registered for {a.pid}', file=sys.stderr)
         sys.exit(2)
